@@ -30,7 +30,7 @@ import numpy as np
 
 from vlib import core
 from vlib.core import Outcome, line
-from vlib.crash import Crash, InjectedIOError, Injector, is_under, mkdtemp, prefixes
+from vlib.crash import Crash, InjectedIOError, Injector, WFile, hard_points, is_under, mkdtemp, prefixes
 
 CKPT_RE = re.compile(r'^checkpoint_[0-9]{8}$')
 JUNK = {'checkpoint_123': b'junk', 'checkpoint_000000099': b'\x80\x04junk', 'checkpoint_0000000a': b'',
@@ -228,39 +228,14 @@ class C09(core.Property):
     real_save = self.ckpt.save_checkpoint
     RealGFile = real['GFile']
 
-    class GFileW:
-
-      def __init__(self, name, mode='r'):
-        self._base = os.path.basename(os.fspath(name))
-        self._w = any(ch in mode for ch in 'wa') and is_under(name, root)
-        if self._w:
-          inj.event('open', self._base)
-        elif is_under(name, root):
-          inj.event('step', 'read ' + self._base)
-        self._f = RealGFile(name, mode)
-
-      def _do_write(self, data):
-        self._f.write(data)
-        if not getattr(prop, 'no_flush', False):
-          self._f.flush()
-
-      def write(self, data):
-        if self._w:
-          return inj.write('write', self._do_write, data, self._base)
-        return self._f.write(data)
-
-      def close(self):
-        return self._f.close()
-
-      def __enter__(self):
-        return self
-
-      def __exit__(self, *exc):
-        self._f.close()
-        return False
-
-      def __getattr__(self, k):
-        return getattr(self._f, k)
+    def GFileW(name, mode='r'):
+      base = os.path.basename(os.fspath(name))
+      if any(ch in mode for ch in 'wa') and is_under(name, root):
+        inj.event('open', base)
+        return WFile(RealGFile(name, mode), inj, base, flush_on_write=not getattr(prop, 'no_flush', False))
+      if is_under(name, root):
+        inj.event('step', 'read ' + base)
+      return RealGFile(name, mode)
 
     def w_glob(pattern, *a, **k):
       inj.event('step', 'glob')
@@ -461,6 +436,8 @@ class C09(core.Property):
           for ev in evs:
             if freq == 0 and keep > 1:
               continue
+            if tier == 'quick' and (R + freq + keep) % 2 != (1 if ev else 0):
+              continue     # quick: eval_frequency alternates over the grid instead of multiplying it
             grid.append((R, freq, keep, ev))
     rng.shuffle(grid)
     for i, (R, freq, keep, ev) in enumerate(grid):
@@ -478,7 +455,7 @@ class C09(core.Property):
     c = cfg(R, rng.choice([1, 1, 2, 3, 4]), rng.choice([1, 1, 2, 3]), rng.choice([0, 1, 2]),
             nf=rng.choice([0, 1, 1, 2]), vec=rng.choice([3, 3, 3, 17000]), seed=rng.randrange(6),
             sampler=rng.choice(['uniform', 'cheap', 'cheap']))
-    sched = [[rng.randrange(0, 10001), rng.randrange(0, 1001), rng.choice([0, 0, 0, 1])]
+    sched = [[rng.randrange(0, 10001), rng.randrange(0, 1001), rng.choice([0, 0, 0, 1, 2, 3])]
              for _ in range(rng.randrange(1, 4))]
     return {'cfg': c, 'junk': rng.random() < 0.3, 'sched': sched}
 
@@ -486,6 +463,10 @@ class C09(core.Property):
     cfg = case['cfg']
     if 'enumerate' in case:
       hit = getattr(self, '_last_fail', {}).get(core.case_digest(case))
+      if hit and hit[0] == 'hard':
+        _, c, f, n = hit
+        yield {'cfg': cfg, 'junk': case['junk'], 'sched': [[frac_of(c, n), 0, 2 if f == 0 else 3]]}
+        return
       if hit and not case.get('from'):
         c, p, n, m = hit
         pf = 0 if not m else min(1000, -(-p * 1000 // m))
@@ -512,7 +493,7 @@ class C09(core.Property):
     if cfg['freq'] > 1:
       yield {**case, 'cfg': {**cfg, 'freq': 1}}
     for i, st in enumerate(sched):
-      if st[2]:
+      if st[2] == 1:
         yield {**case, 'sched': sched[:i] + [[st[0], st[1], 0]] + sched[i + 1:]}
       if st[1] not in (0, 500):
         yield {**case, 'sched': sched[:i] + [[st[0], 500 if st[1] > 500 else 0, st[2]]] + sched[i + 1:]}
@@ -613,18 +594,60 @@ class C09(core.Property):
     if canon(mlisting) != final_listing:
       corr.append(f'{where}: listing after the re-run {final_listing} vs model {canon(mlisting)}')
 
+  @staticmethod
+  def _round_start(events, k):
+    """index of the first event of the k-th executed round (0 if k is None): long runs only
+    enumerate crash points from there on."""
+    if not k:
+      return 0
+    seen = 0
+    for i, e in enumerate(events):
+      if e == ('step', 'sample'):
+        seen += 1
+        if seen == k:
+          return i
+    return 0
+
+  def _hard_kill_enumeration(self, case, ctx, base, cfg, w, junk, ref, probs):
+    """Hard-kill crash points (process death with unflushed data lost; closing a file is a crash
+    point of its own), judged by the independent oracle only."""
+    d = self.fresh_dir(base, 'hprobe', junk)
+    pin = Injector(hard=True)
+    self.invoke(d, cfg, pin, [])
+    hev = pin.events
+    lo = self._round_start(hev, case.get('from'))
+    pts = [(c, f) for (c, f) in hard_points(hev, pin.pending_at) if c >= lo]
+    limit = 40 if ctx.tier == 'quick' else 400
+    if len(pts) > limit:
+      step = len(pts) / float(limit)
+      pts = [pts[int(i * step)] for i in range(limit)]
+    first_bad = None
+    for (c, f) in pts:
+      d = self.fresh_dir(base, 'run', junk)
+      inj = Injector(crash_at=c, hard=True, keep_frac=f)
+      self.invoke(d, cfg, inj, [])
+      listing, _, states = self.observe(d, w, junk)
+      pr = self.oracle_crashed_dir(d, cfg, w, junk, states)
+      saves = []
+      r2 = self.invoke(d, cfg, Injector(), saves)
+      pr += self.oracle_completed(r2, d, cfg, w, ref, saves)
+      ctx.count('hard_kill_points')
+      ctx.count('reruns')
+      if pr and first_bad is None:
+        first_bad = {'hard_kill_before_event': c, 'event': [str(x) for x in hev[c]], 'of_events': len(hev),
+                     'unflushed_bytes': pin.pending_at[c], 'fraction_of_unflushed_bytes_on_disk': f,
+                     'listing_after_kill': listing, 'rerun': str(r2[0] == 'ok' or r2[1])}
+        self._last_fail = {core.case_digest(case): ('hard', c, f, len(hev))}
+      for key, txt in pr:
+        probs.append((key, f'process killed before event {c} {hev[c]} of {len(hev)} with {pin.pending_at[c]} unflushed '
+                           f'bytes ({int(f * 100)}% of them reached the disk): {txt}'))
+      if len(probs) > 4:
+        break
+    return first_bad
+
   def _enumerate(self, case, ctx, base, cfg, w, junk, ref):
     events = ref['events']
-    lo = 0
-    if case.get('from'):
-      # only crash points from the first effect of round `from` on (long runs)
-      seen = 0
-      for i, e in enumerate(events):
-        if e == ('step', 'sample'):
-          seen += 1
-          if seen == case['from']:
-            lo = i
-            break
+    lo = self._round_start(events, case.get('from'))
     pts = self.crash_points(events, lo, fine=ctx.tier == 'thorough')
     probs, corr = [], []
     impl_trace, completions = [], []
@@ -685,6 +708,8 @@ class C09(core.Property):
         self._compare_completed(r2, final_listing, cfg, w, ans[uniq.index(listing)], f'crash {cp}', corr)
         if len(corr) > 3:
           break
+    if not probs:
+      first_bad = self._hard_kill_enumeration(case, ctx, base, cfg, w, junk, ref, probs)
     detail = {'first_failing': first_bad, 'crash_points': len(pts), 'events': len(events)}
     return self._outcome(case, probs, corr, detail, late and cfg['freq'] > 0, ctx)
 
@@ -695,16 +720,22 @@ class C09(core.Property):
     model_fs = []
     for (cf, pf, mode) in case['sched']:
       probe = self.fresh_dir(base, 'probe', junk, src=d)
-      pin = Injector()
+      kill = mode in (2, 3) and not case.get('hard')     # hard-kill step: unflushed data is lost
+      pin = Injector(hard=kill)
       self.invoke(probe, cfg, pin, [])
       events = pin.events
       c = (cf * (len(events) + 1)) // 10001
-      p = (pf * events[c][1][1]) // 1000 if c < len(events) and events[c][0] == 'write' else 0
+      p = (pf * events[c][1][1]) // 1000 if c < len(events) and events[c][0] == 'write' and not kill else 0
       if case.get('hard'):
         r1 = self._hard_crash(d, cfg, c, p, junk)
         fired = r1[0] == 'crash'
+      elif kill:
+        inj = Injector(crash_at=c, hard=True, keep_frac=0.0 if mode == 2 else 0.5)
+        r1 = self.invoke(d, cfg, inj, [])
+        fired = inj.fired
+        ctx.count('hard_kill_points')
       else:
-        inj = Injector(crash_at=c, prefix=p, mode='ioerror' if mode else 'crash')
+        inj = Injector(crash_at=c, prefix=p, mode='ioerror' if mode == 1 else 'crash')
         r1 = self.invoke(d, cfg, inj, [])
         fired = inj.fired
       listing, other, states = self.observe(d, w, junk)
@@ -714,15 +745,18 @@ class C09(core.Property):
         late = True
       pr = self.oracle_crashed_dir(d, cfg, w, junk, states)
       for key, txt in pr:
-        probs.append((key, f'after the crash at event {c} (+{p} bytes) of invocation {len(steps) + 1}: {txt}'))
+        probs.append((key, (f'after the process was killed before event {c} (unflushed data lost)' if kill else
+                            f'after the crash at event {c} (+{p} bytes)') + f' of invocation {len(steps) + 1}: {txt}'))
       steps.append({'crash_after_events': c, 'plus_bytes': p, 'of_events': len(events), 'fired': fired,
+                    'hard_kill': ({'unflushed_bytes': pin.pending_at[c] if c < len(pin.pending_at) else 0,
+                                   'fraction_on_disk': 0.0 if mode == 2 else 0.5} if kill else None),
                     'next_event': [str(x) for x in events[c]] if c < len(events) else None,
                     'listing_after': listing, 'result': str(r1[0] if r1[0] != 'raise' else r1[1])})
       if r1[0] == 'raise':
         exc = r1[1].split(':')[0]
         probs.append((f'C09/rerun-dies/{exc}', f'invocation {len(steps)} (after {len(steps) - 1} crashes) raised {r1[1]}'))
         break
-      if not probs:
+      if not probs and not kill:
         trace = ctx.drv.ask([line('c09.trace', self.model_cfg(cfg), model_fs)])[0]
         if trace == 'dies':
           corr.append(f'model: invocation {len(steps)} dies from {model_fs}')
